@@ -47,7 +47,7 @@ def ev(e, arg, env):
     if op == "pair":
         return (ev(e[1], arg, env), ev(e[2], arg, env))
     if op == "seq":
-        return jnp.stack([ev(e[1], arg, env), ev(e[2], arg, env)])
+        return jax.tree.map(lambda *xs: jnp.stack(xs), ev(e[1], arg, env), ev(e[2], arg, env))
     if op == "fst":
         return ev(e[1], arg, env)[0]
     if op == "snd":
@@ -103,6 +103,8 @@ class Builder:
         elif k == "vmap" and G.get("as_site"):
             # an array-valued address: the callee distribution called once with vector parameters
             out = self.build(G["callee"])
+        elif k == "vmap" and self.kind(G["callee"]) == "cond":
+            out = self.build(G["callee"]).vmap(in_axes=(0, 0, 0))          # (check, script, branch arg), all per lane
         elif k == "vmap":
             callee = self.build(G["callee"])
             assert self.kind(G["callee"]) in ("dist", "fn")
@@ -120,7 +122,7 @@ class Builder:
         k = self.kind(name)
         if k == "scan":
             return (arg[0], (script, arg[1]))
-        if k == "cond":
+        if k == "cond" or (k == "vmap" and self.kind(self.GF[name]["callee"]) == "cond"):
             return (arg[0], script, arg[1])
         return (script, arg)
 
